@@ -574,6 +574,21 @@ def snapshot_shape():
     ]
 
 
+def signal_names():
+    """helpers.rs `signal_str` (unix): the names nextest shows for signal numbers."""
+    src = strip_comments(read("nextest-runner/src/helpers.rs"))
+    m = re.search(r"pub\(crate\) fn signal_str\(signal: i32\) -> Option<&'static str> \{\s*match signal \{(.*?)\n\s*\}\s*\}", src, re.S)
+    if not m: raise RuntimeError("helpers.rs: signal_str not found")
+    rows = []
+    for line in [l.strip() for l in m.group(1).split("\n") if l.strip()]:
+        r = re.fullmatch(r'(\d+) => Some\("(\w+)"\),', line)
+        if r: rows.append((int(r.group(1)), r.group(2))); continue
+        if re.fullmatch(r"_ => None,", line): continue
+        raise RuntimeError(f"helpers.rs: unrecognised arm of signal_str `{line[:60]}`")
+    if not rows: raise RuntimeError("helpers.rs: signal_str has no named signal")
+    return rows
+
+
 def script_sequencing():
     """executor.rs / imp.rs: setup scripts run one at a time, in order, and before any test is queued."""
     ex = re.sub(r"\s+", " ", strip_comments(read("nextest-runner/src/runner/executor.rs")))
@@ -622,7 +637,7 @@ def spawn_setup():
     return rows
 
 
-GROUPS = ["cancel", "mismatch", "exit", "setdef", "escape", "signals", "sighandler", "termchild", "termexit", "delayloop", "drainloop", "drainexit", "drainalways", "verdict", "weights", "retries", "scripts", "spawn", "mainloop", "interval", "placeholders", "xml", "respond", "attemptloop", "snapshot"]
+GROUPS = ["cancel", "mismatch", "exit", "setdef", "escape", "signals", "sighandler", "termchild", "termexit", "delayloop", "drainloop", "drainexit", "drainalways", "verdict", "weights", "retries", "scripts", "spawn", "mainloop", "interval", "placeholders", "xml", "respond", "attemptloop", "snapshot", "signames"]
 
 
 def group_lines(g):
@@ -719,6 +734,10 @@ def group_lines(g):
         rows = snapshot_shape()
         return ["/-- imp.rs: how the snapshot for an information request is taken, as written -/",
                 "def snapshotShape : List (String × Bool) := [" + ", ".join(f'("{a}", {"true" if b else "false"})' for a, b in rows) + "]"]
+    if g == "signames":
+        rows = signal_names()
+        return ["/-- helpers.rs `signal_str`: the name shown for a signal number -/",
+                "def signalNames : List (Nat × String) := [" + ", ".join(f'({a}, "{b}")' for a, b in rows) + "]"]
     if g == "scripts":
         rows = script_sequencing()
         return ["/-- executor.rs / imp.rs: the sequencing of setup scripts, as written -/",
